@@ -10,7 +10,7 @@
    BAD = the verdict (C10 / C04: a cached answer with somebody else's content); DIV = model drift (the real hit / miss /
    size numbers depart from the LRU machine -- e.g. another capacity or another key equality that is still fine enough),
    reported, never a violation. *)
-EXTENDS PCache, Json, IOUtils, TLC
+EXTENDS PCache, Json, IOUtils, TLC, FiniteSets
 Trace == ndJsonDeserialize(IOEnv.TRACE_FILE)
 VARIABLES p, l, div, bad
 tvars == <<p, l, div, bad>>
@@ -20,7 +20,7 @@ RECURSIVE NextNew(_)
 NextNew(i) == IF i > Len(Trace) \/ Trace[i][1] = "new" THEN i ELSE NextNew(i + 1)
 Step(n) ==
   LET ln == Trace[l] IN
-  /\ bad' = IF ln[5] THEN bad ELSE Append(bad, <<l, "parent-cache:answer-has-another-content">>)
+  /\ UNCHANGED bad
   /\ IF Obs(n) = ln[4] THEN p' = n /\ l' = l + 1 /\ UNCHANGED div
      ELSE div' = Append(div, <<l, ln[1], Obs(n), ln[4]>>) /\ l' = NextNew(l + 1) /\ p' = P0
 TraceNew == IsEvent("new") /\ p' = P0 /\ l' = l + 1 /\ UNCHANGED <<div, bad>>
@@ -30,8 +30,10 @@ TraceClear == IsEvent("clear") /\ Step(Clear(p))
 TraceNext == TraceNew \/ TraceConstruct \/ TraceFlood \/ TraceClear
 TraceSpec == TraceInit /\ [][TraceNext]_tvars
 Finished == l = Len(Trace) + 1
-Report == Finished => /\ \A i \in DOMAIN bad : PrintT(<<"BAD", bad[i][1], bad[i][2]>>)
+(* the VERDICT is read off every recorded step, whether or not the machine could still follow that behaviour *)
+BadLines == {i \in DOMAIN Trace : Trace[i][1] # "new" /\ ~Trace[i][5]}
+Report == Finished => /\ \A i \in BadLines : PrintT(<<"BAD", i, "parent-cache:answer-has-another-content">>)
                       /\ \A i \in DOMAIN div : PrintT(<<"INFO", "DIV", div[i]>>)
-                      /\ PrintT(<<"DONE", Len(Trace), Len(bad)>>)
+                      /\ PrintT(<<"DONE", Len(Trace), Cardinality(BadLines)>>)
 TraceAccepted == TLCGet("stats").diameter >= 1
 =============================================================================
